@@ -249,6 +249,22 @@ impl<'tcx> Extractor<'tcx> {
             ]));
         }
         o.push(("blocks".into(), J::A(blocks)));
+        // promoted constants of this body (`&Enum::Variant` operands of derived PartialEq comparisons etc.): their statements
+        let mut proms = vec![];
+        for pb in tcx.promoted_mir(def_id).iter() {
+            let mut pblocks = vec![];
+            for (_bb, data) in pb.basic_blocks.iter_enumerated() {
+                let mut stmts = vec![];
+                for st in &data.statements {
+                    if let Some(j) = self.stmt_j(pb, env, st) {
+                        stmts.push(j);
+                    }
+                }
+                pblocks.push(J::O(vec![("stmts".into(), J::A(stmts))]));
+            }
+            proms.push(J::A(pblocks));
+        }
+        o.push(("promoted".into(), J::A(proms)));
         J::O(o)
     }
 
@@ -331,6 +347,9 @@ impl<'tcx> Extractor<'tcx> {
             o.push(("repr".into(), s(with_no_trimmed_paths!(format!("{}", c.const_)))));
             if let mir::Const::Unevaluated(uv, _) = c.const_ {
                 o.push(("uneval".into(), s(self.path(uv.def))));
+                if let Some(p) = uv.promoted {
+                    o.push(("promoted".into(), n(p.as_usize())));
+                }
             }
         }
         J::O(vec![("const".into(), J::O(o))])
